@@ -369,6 +369,10 @@ Definition fn_dense : string := "eigendecomposition_impl_dense".
 Definition fn_rand : string := "eigendecomposition_impl_randomized".
 Definition fn_gdense : string := "generalized_eigendecomposition_impl_dense".
 
+Definition str_largest : string := "LargestEigenvalues".
+Definition str_squared_largest : string := "SquaredLargestEigenvalues".
+Definition str_smallest : string := "SmallestEigenvalues".
+
 Definition res_ok (r : res) : bool := match r with Ok => true | _ => false end.
 
 (* skip value of an eigendecomposition strategy in the generated skip table *)
